@@ -9,8 +9,8 @@ EXPLANATION = (
     "RNG draw and no associated data flows into them; (R2) the Strobe transcript absorbs the measurement as its own "
     "`key` operation and epoch and threshold each as their own `ad` operation, so no operation mixes two "
     "variable-length inputs; (R3) the threshold reaches its operation through a full-width u32 encoding with no "
-    "narrowing cast; (R4) the share's evaluation point is drawn from the OS generator and is the only random atom "
-    "in a share.  NOT decided: collision resistance of Strobe, distinctness of OS-random points.")
+    "narrowing cast; (R4) the share's evaluation point is drawn from the OS generator on every path and is the only random atom "
+    "in a share; (R5) both client APIs take key seed and tag from the same derived elements.  NOT decided: collision resistance of Strobe, distinctness of OS-random points.")
 ASSUMPTIONS = ["Strobe operations are modelled as one-way accumulators (sv/models.py); Strobe's framing of "
                "separate operations is trusted", "rand::rngs::OsRng is the OS generator"]
 TRUSTED = []
@@ -127,7 +127,39 @@ def run(ctx):
                 len(rn) >= 1 and all(k.endswith("OsRng") for k in kinds),
                 "every random atom of a share must be a draw from the OS generator; found %s" % sorted(kinds), at,
                 sample=sorted(map(str, rn)))
+        # the evaluation point itself is a random draw on every path (never a fixed point)
+        from .common import always_random
+        inner = sh.args[1] if sh.op == "agg" and len(sh.args) == 2 else sh
+        Sv = inner.args[1 + fidx(ctx, "adss::Share", "S")] if inner.op == "agg" else None
+        xv = Sv.args[1 + fidx(ctx, "star_sharks::share_ff::Share", "x")] if Sv is not None and Sv.op == "agg" else None
+        ctx.add("C04.R4", "share_with_local_randomness#share-point-random-on-every-path", xv is not None and always_random(xv),
+                "the share's evaluation point must be a random draw on every path (a fixed point makes agreeing clients emit identical shares); x = %s" % S(xv, 4), at)
+        # R5: both client APIs derive tag and key the same way (a WASM client and a native client agree)
     ctx.floor("C04.R1", 5)
     ctx.floor("C04.R2", 3)
     ctx.floor("C04.R3", 1)
-    ctx.floor("C04.R4", 1)
+    ctx.floor("C04.R4", 2)
+    sib_roles(ctx, "C04.R5")
+    ctx.floor("C04.R5", 1)
+
+
+def sib_roles(ctx, rule):
+    from .common import fidx, ok_variant
+    sib = {}
+    for root2 in ("sta_rs::Message::generate", "sta_rs::MessageGenerator::share_with_local_randomness"):
+        e2, r2, _, _ = ctx.root(root2)
+        dk2 = Q.calls(e2, "sta_rs::derive_ske_key")
+        ok2 = ok_variant(r2, 0)
+        tg = None
+        if ok2 is not None and ok2[2][0].op == "agg":
+            adt = "sta_rs::Message" if root2.endswith("generate") else "sta_rs::WASMSharingMaterial"
+            tg = ok2[2][0].args[1 + fidx(ctx, adt, "tag")]
+
+        def ix(t):
+            return t.args[1].args[0] if t is not None and t.op == "index" and t.args[1].op == "int" else None
+        sib[root2] = (ix(dk2[0]["argv"][0]) if dk2 else None, ix(tg))
+    vals = list(sib.values())
+    ctx.add(rule, "generate~share_with_local_randomness#same-tag-and-key-derivation", len(vals) == 2 and vals[0] == vals[1] and None not in vals[0],
+            "both client APIs must take the key seed and the tag from the same elements of the derived vector, otherwise clients that agree on "
+            "(measurement, epoch, threshold) get different tags/keys depending on the API: %s" % sib, ctx.fn("sta_rs::Message::generate").loc,
+            sample={k.split("::")[-1]: v for k, v in sib.items()})
